@@ -1,4 +1,6 @@
 import DarkluaModel.Shared.VisitorSound.Heap.HFam
+import DarkluaModel.Shared.VisitorSound.Heap.HPerm
+import DarkluaModel.Shared.VisitorSound.Heap.HLocalFn
 /-!
 # Reusable steps for rule builders (links)
 
@@ -136,5 +138,28 @@ theorem LkRep.dropLocal {pre rest : List Stmt} {last : Option Last} {kind : Loca
     exact ⟨.rep (.blockSome (.ssPrefix pre h1.1 (.dropLocal hp (.reflSs (NoRefSs.consName h2.2 hx1))))
           (.reflL (NoRefL.consName h0.2 hx2))) (.reflE (NoRefE.consName hnc hc)),
       NoRefB.some.mpr ⟨NoRefSs.append.mpr ⟨h1.1, h2.2⟩, h0.2⟩, hnc⟩
+
+/-- **Step (2).** Two `local` declarations that bind the same (distinct) names to the same values with
+the same effects (`LocalEquiv`, a statement about ONE state) are interchangeable, whatever the order
+of the variables (hence of the cells). -/
+theorem LkS.permLocal {kind kind' : LocalKind} {ns ns' : List TName} {vs vs' : List Expr}
+    (heq : LocalEquiv (ns.map TName.name) vs (ns'.map TName.name) vs')
+    (hnr : ∀ D, NoRefEs D vs → NoRefEs D vs') :
+    LkS (.localAssign kind ns vs) (.localAssign kind' ns' vs') := fun D hn =>
+  ⟨.genS fun _ hq => permLocal_sound heq (Heap.reflEs hq vs D (NoRefS.localAssign.mp hn)),
+    NoRefS.localAssign.mpr (hnr D (NoRefS.localAssign.mp hn))⟩
+
+/-- `local function f … end` ⇝ `local f = function … end` when the body does not reference `f`
+(`convert_local_function_to_assign`): the closure environments differ by the binding of `f` only. -/
+theorem LkS.localFnToAssign {kind kind' : LocalKind} {name : String} {ty : Option Ty} {f : FnBody}
+    (hname : f.refs name = false) :
+    LkS (.localFn kind name f) (.localAssign kind' [.mk name ty] [.fn f]) := fun D hn => by
+  have hf : NoRefF D f := NoRefS.localFn.mp hn
+  refine ⟨.genS fun _ hq => localFn_to_assign_sound hq ?_, ?_⟩
+  · intro x hx
+    cases hx with
+    | head => exact hname
+    | tail _ hx => exact hf x hx
+  · exact NoRefS.localAssign.mpr (NoRefEs.cons.mpr ⟨NoRefE.fn.mpr hf, fun _ _ => rfl⟩)
 
 end DarkluaModel.Sem.Heap
